@@ -1,6 +1,7 @@
 """C02 — engine property check (see DESIGN.md section 6, C02)."""
 from engcommon import *          # noqa: F401,F403
 import engcommon
+engcommon.TRIM_FAMILIES = True     # left recursion through trims of every mode
 
 ID = "C02"
 HARNESS = "c02_harness"
